@@ -125,7 +125,14 @@ func (p *populator) fill(v reflect.Value, depth int) {
 	}
 	switch v.Kind() {
 	case reflect.Bool:
-		v.SetBool(true)
+		switch p.variant {
+		case 2: // neighbouring flags get different values, so that a field filled from its neighbour shows
+			v.SetBool(p.next()%2 == 0)
+		case 3:
+			v.SetBool(p.next()%2 == 1)
+		default:
+			v.SetBool(true)
+		}
 	case reflect.Int, reflect.Int64, reflect.Int32:
 		v.SetInt(int64(p.next()%7 + 1))
 	case reflect.Uint, reflect.Uint64, reflect.Uint32:
@@ -524,12 +531,12 @@ func fieldKind(t reflect.Type) string {
 }
 
 func runC17(run *Run, replay string) {
-	run.Res.Rule = "for each of the 30 schema/lang types with a Copy method: every exported field populated by reflection (nesting <= 3; a second, sparse variant with nil pointers/containers), Copy() called under recover, structural comparison (nil ~ empty), then one mutation per map / slice / pointed-to struct reachable outside constraints, addresses and cty values - applied to the copy (original must not change) and to the original (copy must not change); distinct non-trivial = distinct (type, variant, mutation path)"
+	run.Res.Rule = "for each of the 30 schema/lang types with a Copy method: every exported field populated by reflection (nesting <= 3, recursive types 8; a second, sparse variant with nil pointers/containers; two variants with alternating boolean flags), Copy() called under recover, structural comparison (nil ~ empty), then one mutation per map / slice / pointed-to struct reachable outside constraints, addresses and cty values - applied to the copy (original must not change) and to the original (copy must not change); distinct non-trivial = distinct (type, variant, mutation path)"
 	_ = hcl.Pos{}
 	_ = function.Parameter{}
 	var table []fieldObs
 	for _, sub := range c17Subjects() {
-		for variant := 0; variant < 2; variant++ {
+		for variant := 0; variant < 4; variant++ {
 			p := &populator{variant: variant}
 			orig := sub.mk(p)
 			run.Res.Evaluations++
